@@ -1,6 +1,7 @@
 import AasVerif.Model.Expr.TyWire
 import AasVerif.Model.Expr.TypeMap
 import AasVerif.Model.Expr.Contract
+import AasVerif.Model.Expr.Conforms
 namespace AasVerif.Drive.C07
 open AasVerif AasVerif.Expr AasVerif.Expr.TyWire
 
@@ -43,8 +44,12 @@ mutual
 end
 
 /--
-* `infer <decls> <self> <expr>` → `ok <ty>|<ty>;<ty>;…` (result, then the type map in pre-order)
-  / `err <kind>;<kind>;…` / `crash <site>`
+* `infer <decls> <self> <expr>` → `ok <ty>|<ty>;<ty>;…` (result of `infer_for_invariant`, then the type
+  map in pre-order) / `err <kind>;<kind>;…` / `crash <site>`
+* `accept <decls> <self> <expr>` → the same verdict with the Python transpiler's check of `len` applied
+  as well (`ok` / `err <kind>;…` / `crash <site>`), then `|` and `1`/`0`: no function or method is used
+  as a value (`noFnValues`, the side condition of the soundness theorem) and `1`/`0`: `Expr.wf`
+* `wf <decls>` → `1`/`0`: the decidable well-formedness `Decls.wfb` (hypothesis `Decls.WF` of the theorems)
 * `canon <expr>` → the canonical string of every sub-expression in pre-order (texts, `,`)
 * `contract <decls> <expr>` → number of `_ContractChecker` errors
 -/
@@ -54,10 +59,23 @@ def handle : List String → Option String
     let self ← Text.dec self
     let e ← Wire.dec e
     let Γ := TEnv.forSelf D self
-    match inferC Γ e with
+    match inferInvC Γ e with
     | .ok τ => some s!"ok {encTy τ}|{";".intercalate ((tmap canon Γ [] e).map showTy)}"
     | .err es => some s!"err {";".intercalate (es.map encErr)}"
     | .crash s => some s!"crash {s}"
+  | ["accept", d, self, e] => do
+    let D ← decDecls d
+    let self ← Text.dec self
+    let e ← Wire.dec e
+    let Γ := TEnv.forSelf D self
+    let side := s!"|{if noFnValuesB canon Γ.withBackend [] e then "1" else "0"}|{if e.wf then "1" else "0"}"
+    match acceptsPy Γ e with
+    | .ok _ => some ("ok" ++ side)
+    | .err es => some (s!"err {";".intercalate (es.map encErr)}" ++ side)
+    | .crash s => some (s!"crash {s}" ++ side)
+  | ["wf", d] => do
+    let D ← decDecls d
+    some (if D.wfb then "1" else "0")
   | ["canon", e] => do
     let e ← Wire.dec e
     some (Text.encList ((subs e).map canon))
